@@ -852,7 +852,7 @@ impl Cx<'_> {
             }
         }
         if t.pct(self.p.export_to) {
-            let dirs = ["", "models/", "models/sub/", "a.b/", "../up/", "deep/er/est/", "models_v2/", "models_v2/sub/", "mod/"];
+            let dirs = ["", "models/", "models/sub/", "a.b/", "../up/", "deep/er/est/", "models_v2/", "models_v2/sub/", "mod/", "../../up2/"];
             let mut d = *t.pick(&dirs);
             if self.p.no_parent_escape && d.starts_with("..") {
                 d = "up/";
@@ -887,7 +887,7 @@ impl Cx<'_> {
         if self.p.rich_generics && t.pct(self.p.generics) {
             let n = 1 + t.weighted(&[40, 40, 20]);
             for i in 0..n {
-                params.push(Param { name: ["T", "U", "V"][i].to_string(), default: None, concrete: None });
+                params.push(Param { name: ["T", "U", "V"][i].to_string(), default: None, concrete: None, ts_bound: false });
             }
             if t.pct(30) {
                 lifetimes.push("'a".to_string());
@@ -929,7 +929,7 @@ impl Cx<'_> {
         } else if !self.p.rich_generics && t.pct(self.p.generics) {
             let n = 1 + t.weighted(&[70, 30]);
             for i in 0..n {
-                params.push(Param { name: ["T", "U"][i].to_string(), default: None, concrete: None });
+                params.push(Param { name: ["T", "U"][i].to_string(), default: None, concrete: None, ts_bound: false });
             }
             if t.pct(25) {
                 let d = if !self.types.is_empty() && t.pct(40) {
@@ -1141,7 +1141,8 @@ impl Cx<'_> {
             }
         };
         let mut td = TypeDef { ident, lifetimes, consts, const_first, const_default, params, body, attrs, docs };
-        fix_unused_params(&mut td);
+        let ts_only = !self.p.serde;
+        fix_unused_params(&mut td, ts_only && self.p.rich_generics, t.word());
         use_lifetimes_and_consts(&mut td);
         sanitize_for_serde_camel(&mut td);
         td
@@ -1191,7 +1192,10 @@ fn use_lifetimes_and_consts(td: &mut TypeDef) {
 
 /// every declared parameter must be used by a non-skipped field (rustc E0392 / ts-rs bound
 /// generation); unused ones get a trailing field
-fn fix_unused_params(td: &mut TypeDef) {
+/// `ts_only_variations`: in TS-only modules a parameter nothing mentions may also stay unused -
+/// only named by a skipped `PhantomData<T>` marker, with an explicit `T: TS` bound -, and in an
+/// internally tagged enum it may become the bare payload of a newtype variant (`V(T)`).
+fn fix_unused_params(td: &mut TypeDef, ts_only_variations: bool, choice: u32) {
     fn uses(ty: &TyExpr, p: &str) -> bool {
         match ty {
             TyExpr::Param(n) => n == p,
@@ -1209,6 +1213,14 @@ fn fix_unused_params(td: &mut TypeDef) {
             continue;
         }
         let extra = Field { ident: Some(format!("extra_{}", p.to_lowercase())), ty: TyExpr::Param(p.clone()), ..Field::default() };
+        let concretised = td.params.iter().any(|q| q.name == p && q.concrete.is_some());
+        if ts_only_variations && !concretised && choice % 3 == 0 {
+            if let Body::Named(fs) = &mut td.body {
+                fs.push(Field { ident: Some(format!("_marker_{}", p.to_lowercase())), ty: TyExpr::Lib("std::marker::PhantomData", vec![TyExpr::Param(p.clone())]), skip: true, ..Field::default() });
+                td.params.iter_mut().filter(|q| q.name == p).for_each(|q| q.ts_bound = true);
+                continue;
+            }
+        }
         match &mut td.body {
             Body::Named(fs) => fs.push(extra),
             Body::Tuple(fs) => fs.push(Field { ident: None, ..extra }),
@@ -1220,7 +1232,7 @@ fn fix_unused_params(td: &mut TypeDef) {
             Body::Enum(vs) => {
                 let vident = format!("Uses{p}");
                 let untagged_pos = vs.iter().position(|v| v.untagged).unwrap_or(vs.len());
-                let body = if td.attrs.repr() == Repr::Internal {
+                let body = if td.attrs.repr() == Repr::Internal && !(ts_only_variations && choice % 2 == 1) {
                     VBody::Named(vec![extra])
                 } else {
                     VBody::Newtype(Field { ident: None, ..extra })
